@@ -101,6 +101,27 @@ def _equivalent_routes(rng, logical, each_mods):
             out.append(('tuple-of-slices', [r_mods_each(rr, each_mods) if each_mods else rr]))
     return out
 
+def held_route_cases(tier, rng):
+    """routes compared on contexts created while one of the inputs is down: several `to` calls, one tuple, slices, and
+    conditions / modifiers attached through the *_each helpers - the start-up rule is per binding whatever the route"""
+    for _ in range(24 if tier == 'thorough' else 10):
+        ids = Ids()
+        n = rng.randint(2, 4)
+        ks = rng.sample([0, 1, 2, 3], n)
+        L = rng.randint(5, 8)
+        logical = [(key(k), [(ids.next(), PROBE)], []) for k in ks]
+        each_c = [(ids.next(), c_script('KExplicit', ['SFired'] * (L + 3)))] if rng.random() < .5 else []
+        heldk = [k for k in ks if rng.random() < .5] or [ks[-1]]
+        steps = [sop(spawn(0, [])), frame(raw(pads=[pad(0)])), frame(raw(keys=heldk, pads=[pad(0)])), sop(insert(0, 0))]
+        cur = set(heldk)
+        for _ in range(L):
+            steps.append(frame(raw(keys=sorted(cur), pads=[pad(0)]), rand_dt(rng)))
+            for k in ks:
+                if rng.random() < .3: cur ^= {k}
+        a = aid(rng.randrange(4), 0, False, rng.random() < .3)
+        variants = equivalent_routes(rng, logical, [], each_c)
+        yield ('(rmulti [%s])' % ' '.join(routed_scenario([(a, routes)], steps) for _, routes in variants), 'routes-created-while-held')
+
 def rand_frames(rng, L, keys=(0, 1, 2, 3)):
     steps = [sop(spawn(0, [0])), frame(raw(pads=[pad(0)]))]
     for _ in range(L):
@@ -135,23 +156,8 @@ def _cases(tier, rng):
         a = aid(rng.randrange(4), 0, rng.random() < .5, rng.random() < .3)
         variants = equivalent_routes(rng, logical, each, each_c)
         yield ('(rmulti [%s])' % ' '.join(routed_scenario([(a, routes)], steps) for _, routes in variants), 'routes-x%d' % len(variants))
-    # the routes must also agree on the per-binding start-up rule (a binding whose input is held when the context is created
-    # stays silent until released): several `to` calls, one tuple, a slice - created while one of the inputs is down
-    for _ in range(24 if tier == 'thorough' else 8):
-        ids = Ids()
-        n = rng.randint(2, 4)
-        ks = rng.sample([0, 1, 2, 3], n)
-        logical = [(key(k), [(ids.next(), PROBE)], []) for k in ks]
-        heldk = [k for k in ks if rng.random() < .5] or [ks[-1]]
-        steps = [sop(spawn(0, [])), frame(raw(pads=[pad(0)])), frame(raw(keys=heldk, pads=[pad(0)])), sop(insert(0, 0))]
-        cur = set(heldk)
-        for _ in range(rng.randint(5, 8)):
-            steps.append(frame(raw(keys=sorted(cur), pads=[pad(0)]), rand_dt(rng)))
-            for k in ks:
-                if rng.random() < .3: cur ^= {k}
-        a = aid(rng.randrange(4), 0, False, rng.random() < .3)
-        variants = _equivalent_routes(rng, logical, [])
-        yield ('(rmulti [%s])' % ' '.join(routed_scenario([(a, routes)], steps) for _, routes in variants), 'routes-created-while-held')
+    for x in held_route_cases(tier, rng):
+        yield x
     # binding an action a second time extends it in place: P (consuming), Q (same key, listens), then P again with one more
     # input; whether Q sees the key depends on P keeping its place in the evaluation order
     for _ in range(40 if tier == 'thorough' else 10):
